@@ -3,12 +3,31 @@
 
 namespace Juniper.Pinned.Comb
 
+/-- `Chunk` in `iterator`: signature and full statement list, locals renamed positionally -/
+def pin_iterator_Chunk : List String := ["func Chunk[T0 any](p0 Iterator[T0], p1 int) Iterator[[]T0]",
+  "return &chunkIterator[T0]{inner: p0, chunkSize: p1}"]
+
 /-- `Collect` in `iterator`: signature and full statement list, locals renamed positionally -/
 def pin_iterator_Collect : List String := ["func Collect[T0 any](p0 Iterator[T0]) []T0",
   "return Reduce(p0, nil, func(v0 []T0, v1 T0) []T0 { })",
   "func#0 {",
   "return append(v0, v1)",
   "}"]
+
+/-- `Compact` in `iterator`: signature and full statement list, locals renamed positionally -/
+def pin_iterator_Compact : List String := ["func Compact[T0 comparable](p0 Iterator[T0]) Iterator[T0]",
+  "return CompactFunc(p0, func(v0, v1 T0) bool { })",
+  "func#0 {",
+  "return v0 == v1",
+  "}"]
+
+/-- `CompactFunc` in `iterator`: signature and full statement list, locals renamed positionally -/
+def pin_iterator_CompactFunc : List String := ["func CompactFunc[T0 any](p0 Iterator[T0], p1 func(T0, T0) bool) Iterator[T0]",
+  "return &compactIterator[T0]{inner: p0, first: true, eq: p1}"]
+
+/-- `Counter` in `iterator`: signature and full statement list, locals renamed positionally -/
+def pin_iterator_Counter : List String := ["func Counter(p0 int) Iterator[int]",
+  "return &counterIterator{i: 0, n: p0}"]
 
 /-- `Equal` in `iterator`: signature and full statement list, locals renamed positionally -/
 def pin_iterator_Equal : List String := ["func Equal[T0 comparable](p0 ...Iterator[T0]) bool",
@@ -30,6 +49,10 @@ def pin_iterator_Equal : List String := ["func Equal[T0 comparable](p0 ...Iterat
   "return true",
   "}",
   "}"]
+
+/-- `First` in `iterator`: signature and full statement list, locals renamed positionally -/
+def pin_iterator_First : List String := ["func First[T0 any](p0 Iterator[T0], p1 int) Iterator[T0]",
+  "return &firstIterator[T0]{inner: p0, x: p1}"]
 
 /-- `Last` in `iterator`: signature and full statement list, locals renamed positionally -/
 def pin_iterator_Last : List String := ["func Last[T0 any](p0 Iterator[T0], p1 int) []T0",
@@ -80,6 +103,23 @@ def pin_iterator_Reduce : List String := ["func Reduce[T0 any, T1 any](p0 Iterat
   "v0 = p2(v0, v1)",
   "}"]
 
+/-- `Repeat` in `iterator`: signature and full statement list, locals renamed positionally -/
+def pin_iterator_Repeat : List String := ["func Repeat[T0 any](p0 T0, p1 int) Iterator[T0]",
+  "return &repeatIterator[T0]{item: p0, x: p1}"]
+
+/-- `While` in `iterator`: signature and full statement list, locals renamed positionally -/
+def pin_iterator_While : List String := ["func While[T0 any](p0 Iterator[T0], p1 func(T0) bool) Iterator[T0]",
+  "return &whileIterator[T0]{inner: p0, f: p1, done: false}"]
+
+/-- `WithPeek` in `iterator`: signature and full statement list, locals renamed positionally -/
+def pin_iterator_WithPeek : List String := ["func WithPeek[T0 any](p0 Iterator[T0]) Peekable[T0]",
+  "return &peekable[T0]{inner: p0, has: false}"]
+
+/-- `chanIterator.Next` in `iterator`: signature and full statement list, locals renamed positionally -/
+def pin_iterator_chanIterator_Next : List String := ["func (r *chanIterator[T]) Next() (T, bool)",
+  "v0, v1 := <-r.c",
+  "return v0, v1"]
+
 /-- `chunkIterator.Next` in `iterator`: signature and full statement list, locals renamed positionally -/
 def pin_iterator_chunkIterator_Next : List String := ["func (r *chunkIterator[T]) Next() ([]T, bool)",
   "v0 := make([]T, 0, r.chunkSize)",
@@ -125,6 +165,11 @@ def pin_iterator_counterIterator_Next : List String := ["func (r *counterIterato
   "v0 := r.i",
   "r.i++",
   "return v0, true"]
+
+/-- `emptyIterator.Next` in `iterator`: signature and full statement list, locals renamed positionally -/
+def pin_iterator_emptyIterator_Next : List String := ["func (r emptyIterator[T]) Next() (T, bool)",
+  "var v0 T",
+  "return v0, false"]
 
 /-- `filterIterator.Next` in `iterator`: signature and full statement list, locals renamed positionally -/
 def pin_iterator_filterIterator_Next : List String := ["func (r *filterIterator[T]) Next() (T, bool)",
@@ -274,6 +319,10 @@ def pin_iterator_whileIterator_Next : List String := ["func (r *whileIterator[T]
   "}",
   "return v1, true"]
 
+/-- `Chunk` in `stream`: signature and full statement list, locals renamed positionally -/
+def pin_stream_Chunk : List String := ["func Chunk[T0 any](p0 Stream[T0], p1 int) Stream[[]T0]",
+  "return &chunkStream[T0]{inner: p0, chunkSize: p1}"]
+
 /-- `Collect` in `stream`: signature and full statement list, locals renamed positionally -/
 def pin_stream_Collect : List String := ["func Collect[T0 any](p0 context.Context, p1 Stream[T0]) ([]T0, error)",
   "defer p1.Close()",
@@ -289,6 +338,21 @@ def pin_stream_Collect : List String := ["func Collect[T0 any](p0 context.Contex
   "}",
   "v0 = append(v0, v1)",
   "}"]
+
+/-- `Compact` in `stream`: signature and full statement list, locals renamed positionally -/
+def pin_stream_Compact : List String := ["func Compact[T0 comparable](p0 Stream[T0]) Stream[T0]",
+  "return CompactFunc(p0, func(v0, v1 T0) bool { })",
+  "func#0 {",
+  "return v0 == v1",
+  "}"]
+
+/-- `CompactFunc` in `stream`: signature and full statement list, locals renamed positionally -/
+def pin_stream_CompactFunc : List String := ["func CompactFunc[T0 any](p0 Stream[T0], p1 func(T0, T0) bool) Stream[T0]",
+  "return &compactStream[T0]{inner: p0, first: true, eq: p1}"]
+
+/-- `First` in `stream`: signature and full statement list, locals renamed positionally -/
+def pin_stream_First : List String := ["func First[T0 any](p0 Stream[T0], p1 int) Stream[T0]",
+  "return &firstStream[T0]{inner: p0, x: p1}"]
 
 /-- `Last` in `stream`: signature and full statement list, locals renamed positionally -/
 def pin_stream_Last : List String := ["func Last[T0 any](p0 context.Context, p1 Stream[T0], p2 int) ([]T0, error)",
@@ -361,6 +425,26 @@ def pin_stream_Reduce : List String := ["func Reduce[T0 any, T1 any](p0 context.
   "}",
   "}"]
 
+/-- `WithPeek` in `stream`: signature and full statement list, locals renamed positionally -/
+def pin_stream_WithPeek : List String := ["func WithPeek[T0 any](p0 Stream[T0]) Peekable[T0]",
+  "return &peekable[T0]{inner: p0, has: false}"]
+
+/-- `chanStream.Close` in `stream`: signature and full statement list, locals renamed positionally -/
+def pin_stream_chanStream_Close : List String := ["func (r *chanStream[T]) Close()"]
+
+/-- `chanStream.Next` in `stream`: signature and full statement list, locals renamed positionally -/
+def pin_stream_chanStream_Next : List String := ["func (r *chanStream[T]) Next(p0 context.Context) (T, error)",
+  "var v0 T",
+  "select {",
+  "case v1, v2 := <-r.c:",
+  "if !v2 {",
+  "return v0, End",
+  "}",
+  "return v1, nil",
+  "case <-p0.Done():",
+  "return v0, p0.Err()",
+  "}"]
+
 /-- `chunkStream.Close` in `stream`: signature and full statement list, locals renamed positionally -/
 def pin_stream_chunkStream_Close : List String := ["func (r *chunkStream[T]) Close()",
   "r.inner.Close()"]
@@ -412,6 +496,22 @@ def pin_stream_compactStream_Next : List String := ["func (r *compactStream[T]) 
   "}",
   "}",
   "}"]
+
+/-- `emptyStream.Close` in `stream`: signature and full statement list, locals renamed positionally -/
+def pin_stream_emptyStream_Close : List String := ["func (r emptyStream[T]) Close()"]
+
+/-- `emptyStream.Next` in `stream`: signature and full statement list, locals renamed positionally -/
+def pin_stream_emptyStream_Next : List String := ["func (r emptyStream[T]) Next(p0 context.Context) (T, error)",
+  "var v0 T",
+  "return v0, End"]
+
+/-- `errorStream.Close` in `stream`: signature and full statement list, locals renamed positionally -/
+def pin_stream_errorStream_Close : List String := ["func (r errorStream[T]) Close()"]
+
+/-- `errorStream.Next` in `stream`: signature and full statement list, locals renamed positionally -/
+def pin_stream_errorStream_Next : List String := ["func (r errorStream[T]) Next(p0 context.Context) (T, error)",
+  "var v0 T",
+  "return v0, r.err"]
 
 /-- `filterStream.Close` in `stream`: signature and full statement list, locals renamed positionally -/
 def pin_stream_filterStream_Close : List String := ["func (r *filterStream[T]) Close()",
@@ -672,6 +772,10 @@ def pin_stream_whileStream_Next : List String := ["func (r *whileStream[T]) Next
   "r.has = false",
   "return r.item, nil"]
 
+/-- `SampleStream` in `xmath/xrand`: signature and full statement list, locals renamed positionally -/
+def pin_xmath_xrand_SampleStream : List String := ["func SampleStream[T0 any](p0 context.Context, p1 stream.Stream[T0], p2 int) ([]T0, error)",
+  "return rSampleStream(p0, defaultRand{}, p1, p2)"]
+
 /-- `newSampler` in `xmath/xrand`: signature and full statement list, locals renamed positionally -/
 def pin_xmath_xrand_newSampler : List String := ["func newSampler[T0 randRand](p0 T0, p1 int) sampler[T0]",
   "return sampler[T0]{i: 0, first: true, w: math.Exp(math.Log(p0.Float64()) / float64(p1)), k: p1, r: p0}"]
@@ -720,16 +824,20 @@ def pin_xslices_Chunk : List String := ["func Chunk[T0 any](p0 []T0, p1 int) [][
   "if p1 <= 0 {",
   "panic(\"xslices.Chunk: chunkSize must be positive\")",
   "}",
-  "v0 := make([][]T0, (len(p0)+p1-1)/p1)",
-  "for v1 := range v0 {",
-  "v2 := v1 * p1",
-  "v3 := (v1 + 1) * p1",
-  "if v3 > len(p0) {",
-  "v3 = len(p0)",
+  "v0 := 0",
+  "if len(p0) > 0 {",
+  "v0 = (len(p0)-1)/p1 + 1",
   "}",
-  "v0[v1] = p0[v2:v3]",
+  "v1 := make([][]T0, v0)",
+  "for v2 := range v1 {",
+  "v3 := v2 * p1",
+  "v4 := len(p0)",
+  "if len(p0)-v3 > p1 {",
+  "v4 = v3 + p1",
   "}",
-  "return v0"]
+  "v1[v2] = p0[v3:v4]",
+  "}",
+  "return v1"]
 
 /-- `Runs` in `xslices`: signature and full statement list, locals renamed positionally -/
 def pin_xslices_Runs : List String := ["func Runs[T0 any](p0 []T0, p1 func(v0, v1 T0) bool) [][]T0",
